@@ -273,6 +273,44 @@ theorem writeRecord_same {g₁ g₂ : List (List Feat)} (h : Pointwise (Pointwis
   exact map_eq_of_forall₂ (fun a b hab => emitFeature_same hab)
     (sortBy_forall₂ (R := SameFeature) (fun a a' b b' ha hb => featBefore_same ha hb) (flatten_forall₂ h))
 
+/-! ### `get_unique_protoclusters`: the key separates whatever the fields separate -/
+
+/-- no two members agree on start, length, product and core -/
+def FieldsInj (l : List Proto) : Prop :=
+  ∀ a ∈ l, ∀ b ∈ l, a.start = b.start → a.len = b.len → a.product = b.product → a.coreStart = b.coreStart →
+    a.coreEnd = b.coreEnd → a = b
+
+theorem keyInj_of_fieldsInj {cross : Bool} {L : Int} {l : List Proto} (h : FieldsInj l)
+    (hr : cross = true → ∀ p ∈ l, 0 ≤ p.start ∧ p.start < L) : KeyInj cross L l := by
+  intro a ha b hb hk
+  apply h a ha b hb
+  all_goals
+    simp only [protoKey] at hk
+    cases cross with
+    | false => simp at hk; omega
+    | true =>
+      have ra := hr rfl a ha
+      have rb := hr rfl b hb
+      by_cases h1 : 2 * a.start < L <;> by_cases h2 : 2 * b.start < L <;>
+        simp [h1, h2] at hk <;> omega
+
+/-! ### `_merge_domain_list`: the walk over the profiles -/
+
+theorem mergeDomainListE_eq_of_perm {e₁ e₂ : List Int → List Int} (h₁ : ∀ l, (e₁ l).Perm l) (h₂ : ∀ l, (e₂ l).Perm l)
+    (env : Env) (domains : List Hit)
+    (hd : ∀ a ∈ (firstOcc (domains.map (·.prof))).flatMap (mergedOfProfile env domains),
+          ∀ b ∈ (firstOcc (domains.map (·.prof))).flatMap (mergedOfProfile env domains), a.qs = b.qs → a = b) :
+    mergeDomainListE e₁ env domains = mergeDomainListE e₂ env domains := by
+  unfold mergeDomainListE
+  have hp₁ := (h₁ (firstOcc (domains.map (·.prof)))).flatMap_right (mergedOfProfile env domains)
+  have hp₂ := (h₂ (firstOcc (domains.map (·.prof)))).flatMap_right (mergedOfProfile env domains)
+  apply sortBy_eq_of_perm_on Hit.leStart_total Hit.leStart_trans
+  · intro a ha b hb hab hba
+    apply hd a (hp₁.mem_iff.1 ha) b (hp₁.mem_iff.1 hb)
+    simp only [Hit.leStart, decide_eq_true_eq] at hab hba
+    omega
+  · exact hp₁.trans hp₂.symm
+
 /-! ### before D1705: the first maximum in the set's own iteration order -/
 
 theorem bestIn_ge : ∀ (b : FHit) (l : List FHit), ∀ o ∈ b :: l, o.sc ≤ (bestIn b l).sc
